@@ -47,7 +47,10 @@ class TapeImageContentExtractor(TapeImageWorker):
                 fileContent = bytearray()  # initialize accumulator
             elif block.type == TypeOfTapeBlock.EOF:
                 with open(
-                    os.path.join(targetDir, f"{desc.fileName}.{desc.fileExtension}"),
+                    os.path.join(
+                        targetDir,
+                        f"{desc.fileName}.{desc.fileExtension}".replace(os.sep, "_"),
+                    ),
                     "wb",
                 ) as f:
                     f.write(fileContent)
